@@ -55,7 +55,7 @@ FRAG_NAME_CLASSES = {
     "glencoe": ["ident", "ident_lower", "collide", "quote", "squote", "dquote", "dot", "newline",
                 "backslash", "keyword", "astword", "digit", "under", "nonascii", "xmlhard"],
     "whole": ["ident", "ident_lower", "collide", "quote", "squote", "keyword", "astword", "digit", "under",
-              "nonascii"],
+              "nonascii", "dot"],
     "plain": ["ident"],
 }
 
@@ -146,7 +146,8 @@ def _group_card(rng, kind, n, allow_gt_n=False):
     if rng.random() < 0.5:
         shapes = [(0, 0), (0, n), (n, n), (2, n), (0, 2), (n - 1, n), (2, 2), (0, n - 1)]
         if allow_gt_n:
-            shapes += [(1, n + 2), (2, n + 3), (0, n + 1), (n, n + 1)]
+            shapes += [(1, n + 2), (2, n + 3), (0, n + 1), (n, n + 1), (2, 10), (3, 12), (5, 15),
+                       (10, 12)]
         rng.shuffle(shapes)
         for lo, hi in shapes:
             if 0 <= lo <= hi and (lo, hi) not in ((1, 1), (1, n), (0, 1)):
@@ -292,6 +293,9 @@ def gen_tree(rng, frag, pool, cfg):
         if spec["fcard"] and rng.random() < cfg.get("p_fcard", 0.15):
             a = rng.randint(0, 3)
             feat["fc"] = [a, -1] if rng.random() < 0.3 else [a, a + rng.randint(0, 3)]
+            if rng.random() < 0.2:
+                feat["fc"] = list(rng.choice([(2, 10), (3, 12), (0, 10), (10, 12), (5, 15),
+                                              (9, 11), (1, 100)]))
             if feat["fc"] == [1, 1]:
                 feat["fc"] = [1, 2]
         feat["attrs"] = _gen_attrs(rng, spec["attrs"], cfg)
@@ -495,7 +499,7 @@ def default_cfg(rng, frag, tier="quick"):
 # ------------------------------------------------------------------ edits
 
 EDIT_KINDS = ["rename", "toggle_abstract", "add_leaf", "remove_leaf", "add_ctc", "drop_ctc",
-              "set_attr", "regroup"]
+              "set_attr", "regroup", "swap_names", "flip_ctc", "recard"]
 
 
 def gen_edit(rng, ref, frag, pool, cfg):
@@ -571,6 +575,47 @@ def gen_edit(rng, ref, frag, pool, cfg):
             val = _attr_value(rng, "uvl" if spec["attrs"] == "uvl" else "json", 1)
             feat["attrs"][i]["v"] = val
             return {"k": "set_attr", "f": feat["n"], "a": feat["attrs"][i]["n"], "v": val}, new
+        if kind == "swap_names":
+            # two features of equal name length exchange their names (everywhere): the serialised
+            # document keeps its byte length but denotes another model
+            pairs = [(a, b_) for i, (a, _, _) in enumerate(feats) for (b_, _, _) in feats[i + 1:]
+                     if len(a["n"].encode("utf-8")) == len(b_["n"].encode("utf-8"))]
+            if not pairs:
+                continue
+            a, b_ = rng.choice(pairs)
+            na, nb = a["n"], b_["n"]
+            a["n"], b_["n"] = nb, na
+            return {"k": "swap_names", "a": na, "b": nb}, new
+        if kind == "flip_ctc":
+            cands = [i for i, c in enumerate(new["ctcs"]) if c["e"][0] in ("REQUIRES", "EXCLUDES")
+                     and c["e"][1][0] == "f" and c["e"][2][0] == "f"
+                     and "REQUIRES" in spec["ops"] and "EXCLUDES" in spec["ops"]]
+            if not cands:
+                continue
+            i = rng.choice(cands)
+            new["ctcs"][i]["e"][0] = "EXCLUDES" if new["ctcs"][i]["e"][0] == "REQUIRES" else \
+                "REQUIRES"
+            return {"k": "flip_ctc", "i": i, "op": new["ctcs"][i]["e"][0]}, new
+        if kind == "recard":
+            cands = []
+            for f, _, _ in feats:
+                for rel in f["rels"]:
+                    n = len(rel["ch"])
+                    if n > 2 and 2 <= rel["max"] <= 8 and rel["min"] < rel["max"] and \
+                            (rel["min"], rel["max"]) not in ((1, n),) and "card" in spec["groups"]:
+                        cands.append((f, rel))
+            if not cands:
+                continue
+            f, rel = rng.choice(cands)
+            n = len(rel["ch"])
+            for hi in (rel["max"] + 1, rel["max"] - 1):
+                if rel["min"] <= hi <= max(n, rel["max"]) and hi >= 2 and \
+                        (rel["min"], hi) not in ((1, 1), (1, n), (0, 1)) and hi < 10:
+                    old_max = rel["max"]
+                    rel["max"] = hi
+                    return {"k": "recard", "f": f["n"], "ch": sorted(c["n"] for c in rel["ch"]),
+                            "min": rel["min"], "max": hi, "old_max": old_max}, new
+            continue
         if kind == "regroup":
             cands = []
             for f, _, _ in feats:
